@@ -773,14 +773,37 @@ fn dump<'tcx>(tcx: TyCtxt<'tcx>) {
         // value of simple integer constants (used by window/size rules)
         let ty = tcx.type_of(did).instantiate_identity().skip_norm_wip();
         let mut val = J::N;
+        let mut bytes = J::N;
         if tcx.generics_of(did).is_empty() && !tcx.generics_of(did).has_self {
           if let Ok(cv) = tcx.const_eval_poly(did) {
-            if let ConstValue::Scalar(sc) = cv {
-              if let Ok(si) = sc.try_to_scalar_int() {
-                let size = si.size();
-                let v: i128 = if ty.is_signed() { si.to_int(size) } else { si.to_bits(size) as i128 };
-                val = J::I(v);
+            match cv {
+              ConstValue::Scalar(sc) => {
+                if let Ok(si) = sc.try_to_scalar_int() {
+                  let size = si.size();
+                  let v: i128 = if ty.is_signed() { si.to_int(size) } else { si.to_bits(size) as i128 };
+                  val = J::I(v);
+                  let n = size.bytes() as usize;
+                  let b = si.to_bits(size).to_le_bytes();
+                  bytes = J::A(b[..n].iter().map(|x| J::I(*x as i128)).collect());
+                }
               }
+              ConstValue::Indirect { alloc_id, offset } => {
+                let env = TypingEnv::post_analysis(tcx, did);
+                if let Ok(layout) = tcx.layout_of(env.as_query_input(ty)) {
+                  let n = layout.size.bytes() as usize;
+                  if n <= 64 {
+                    if let rustc_middle::mir::interpret::GlobalAlloc::Memory(a) = tcx.global_alloc(alloc_id) {
+                      let a = a.inner();
+                      let off = offset.bytes() as usize;
+                      if off + n <= a.len() {
+                        let b = a.inspect_with_uninit_and_ptr_outside_interpreter(off..off + n);
+                        bytes = J::A(b.iter().map(|x| J::I(*x as i128)).collect());
+                      }
+                    }
+                  }
+                }
+              }
+              _ => {}
             }
           }
         }
@@ -789,6 +812,7 @@ fn dump<'tcx>(tcx: TyCtxt<'tcx>) {
           ("path", s(cx.def(did))),
           ("ty", s(cx.ty(ty))),
           ("val", val),
+          ("bytes", bytes),
           ("file", s(file)),
           ("line", J::I(line)),
         ]));
